@@ -120,10 +120,50 @@ type Options struct {
 }
 
 var (
-	genOpts Options
-	genRand *core.Rand // the option PRNG of the case being generated (set by Generate)
-	varRand *core.Rand // PRNG of the input-space variations applied to every profile (set by Generate)
+	genOpts  Options
+	genRand  *core.Rand // the option PRNG of the case being generated (set by Generate)
+	varRand  *core.Rand // PRNG of the input-space variations applied to every profile (set by Generate)
+	lateRand *core.Rand // PRNG of the late-answer flavour (profiles attempts, mixed)
 )
+
+// lateAnswer (profiles attempts and mixed, p 0.3; a PRNG of its own): one sequence gets, in front, an action a0
+// (retries 1..2, timeout 30 ms) whose first invocation overruns, IGNORES the cancellation and answers ok 10-14 ms after
+// the deadline, and whose retry is slow (20 ms, then fails) or overruns as well - so the late answer arrives while the
+// retry is in flight. On correct code nobody reads the late answer. The sequence's other actions follow a0.
+func (sp *Spec) lateAnswer() {
+	p := map[string]float64{"attempts": 0.3, "mixed": 0.3}[sp.Profile]
+	if lateRand == nil || p == 0 || len(sp.Shape.Blocks) == 0 || !lateRand.Chance(p) {
+		return
+	}
+	lr := lateRand
+	b := lr.Intn(len(sp.Shape.Blocks))
+	bl := &sp.Shape.Blocks[b]
+	q := lr.Intn(len(bl.Seqs))
+	n := len(bl.Seqs[q])
+	// shift the scripts of the sequence's actions by one position and put a0 in front
+	for i := n - 1; i >= 0; i-- {
+		if s, ok := sp.Scripts[SeqPath(b, q, i)]; ok {
+			sp.Scripts[SeqPath(b, q, i+1)] = s
+			delete(sp.Scripts, SeqPath(b, q, i))
+		}
+		if t, ok := sp.Short[SeqPath(b, q, i)]; ok {
+			sp.Short[SeqPath(b, q, i+1)] = t
+			delete(sp.Short, SeqPath(b, q, i))
+		}
+	}
+	rt := lr.Range(1, 2)
+	seq := append([]int{rt}, bl.Seqs[q]...)
+	bl.Seqs[q] = seq
+	second := Step{O: OPerm, SlowMs: 20}
+	if lr.Chance(0.4) {
+		second = Step{O: OOverrun}
+	} else if lr.Chance(0.3) {
+		second = Step{O: OOk, SlowMs: 20}
+	}
+	sp.Scripts[SeqPath(b, q, 0)] = Script{[]Step{{O: OOverrun, LateMs: lr.Range(10, 14)}, second}}
+	sp.Short[SeqPath(b, q, 0)] = 30
+	sp.Dist["late_answer_flavour"] = true
+}
 
 // vary applies input-space variations that must make no difference on correct code, to every profile, from a PRNG
 // of their own: a continuous group's Delay is 0 (the effective default: runContChecks then ticks every 1 ns, runs
@@ -180,6 +220,7 @@ func (sp *Spec) forceDeferred() {
 func (sp *Spec) seal(r *core.Rand) *Spec {
 	sp.forceDeferred()
 	sp.vary()
+	sp.lateAnswer()
 	nonok, holds := 0, 0
 	hist := map[string]int{}
 	paths := make([]string, 0, len(sp.Scripts))
@@ -203,7 +244,7 @@ func (sp *Spec) seal(r *core.Rand) *Spec {
 				}
 			}
 		}
-		if over {
+		if _, set := sp.Short[p]; over && !set {
 			sp.Short[p] = r.Range(15, 25)
 		}
 		if bad {
@@ -331,6 +372,7 @@ func Generate(seed uint64, profile string, idx int, o Options) *Spec {
 	genOpts = o
 	genRand = core.NewRand(seed).Fork(uint64(idx)).Fork(0xdefe77ed)
 	varRand = core.NewRand(seed).Fork(uint64(idx)).Fork(0x7a41a7e)
+	lateRand = core.NewRand(seed).Fork(uint64(idx)).Fork(0x1a7ea5)
 	r := core.NewRand(seed).Fork(uint64(idx)).Fork(uint64(len(profile))*131 + uint64(profile[0]))
 	switch profile {
 	case "order":
